@@ -667,3 +667,17 @@ Proof.
   cbn [sp_members] in Hm, Ha. rewrite steps_nil in Hd by assumption.
   destruct Hd as [<-|[]]. reflexivity.
 Qed.
+
+(* every declaration below a choice - directly or inside a nested sequence /
+   all / group at any depth - is marked as a choice branch *)
+Lemma compound_choice_branch_marked_l o kids e :
+  In e (s_particle (PC KChoice o kids)) -> match e with SE _ ch _ => ch = true | SWild => True end.
+Proof.
+  cbn [s_particle]. intro H. apply in_map_iff in H as [e0 [<- _]].
+  destruct e0 as [d ch op|]; cbn; auto. apply orb_true_r.
+Qed.
+
+Lemma mark_keeps_choice k o e :
+  match e with SE _ ch _ => ch = true | SWild => True end ->
+  match mark k o e with SE _ ch _ => ch = true | SWild => True end.
+Proof. destruct e as [d ch op|]; cbn; auto. intros ->. reflexivity. Qed.
